@@ -106,6 +106,17 @@ fn follow_up_val(e: exmex::FlatExVal<i32, f64>) -> ExResult<()> {
         e.eval(&vals)?;
         e.eval_vec(vals.clone())?;
     }
+    // arrays: as every variable, and arrays / small integer indices alternating (component access at and beyond the end)
+    let arr = |k: usize| -> Val<i32, f64> { Val::Array((0..k).map(|x| x as f64 + 0.5).collect()) };
+    for k in 0..=4 {
+        let _ = e.eval(&vec![arr(k); n]);
+        for parity in 0..2 {
+            let vals: Vec<Val<i32, f64>> = (0..n).map(|j| if j % 2 == parity { arr(2) } else { Val::Int(k as i32 - 1) }).collect();
+            let _ = e.eval(&vals);
+            let vals: Vec<Val<i32, f64>> = (0..n).map(|j| if j % 2 == parity { arr(k) } else { arr(3) }).collect();
+            let _ = e.eval(&vals);
+        }
+    }
     let _ = (e.unparse().len(), e.operator_reprs());
     let d = e.clone().to_deepex()?;
     let vals = vec![Val::Float(0.5); n];
